@@ -133,6 +133,16 @@ func gen(tier string) []proto.Item {
 				items = append(items, proto.Item{Scn: s, Class: fmt.Sprintf("%s/late-duplicate-of-ttl%d", v, t)})
 			}
 		}
+		if proto.Info(v).Parallel {
+			// the destination's first answer is for a TTL that already holds a router's answer (route change, ECMP): the run
+			// has seen the destination all the same, the TTLs still to come are not probed (one in flight excepted)
+			vi := proto.Info(v)
+			for _, t := range []int{1, 2} {
+				s := proto.Scn{Variant: v, First: 1, Last: 12, Dest: 0, IPIDBase: 1000, EchoBase: 50, TimeoutMs: 300, DelayMs: 10}
+				s.Inject = []proto.Inject{{OnTTL: t, AnswerTTL: t, Form: vi.DestForm, From: s.Target().String(), DelayUs: proto.DefaultDelayUs(t) + 12000, Tag: "destination-after-router", Genuine: true}}
+				items = append(items, proto.Item{Scn: s, Class: fmt.Sprintf("%s/destination-answers-a-ttl-a-router-answered/ttl%d", v, t)})
+			}
+		}
 		// a send call that takes longer than the configured delay (the socket waited for buffer space, 15ms) and then
 		// succeeds: the k-th, or every one; the probes on the wire are still at least the delay apart
 		for _, k := range []int{1, 2, 3, 0} {
